@@ -266,27 +266,18 @@ func runC07(c *Ctx) {
 			}
 		}
 		rl := w.Func("turn", "Server", "readLoop")
-		handle := w.Func("server", "", "HandleRequest")
-		w.eachInstr(rl, func(in ssa.Instruction) {
-			call, ok := in.(*ssa.Call)
-			if !ok || call.Call.StaticCallee() != handle {
-				return
-			}
-			lit := w.literalOf(call.Call.Args[0])
-			if lit == nil {
-				return
-			}
+		for _, lit := range w.requestBuild().lits {
 			for rf, sf := range map[string]string{"PermissionTimeout": "permissionTimeout", "ChannelBindTimeout": "channelBindTimeout", "AllocationLifetime": "allocationLifetime"} {
 				c.Anchor("C07.4", "Request."+rf)
 				v := lit.fields[rf]
 				_, f, isL := fieldLoad(v)
 				if v != nil && isL && f == w.Field("turn", "Server", sf) {
-					c.OK("C07.4", fname(rl), "Request."+rf, w.instrPos(in), "filled from Server."+sf)
+					c.OK("C07.4", fname(rl), "Request."+rf, w.requestBuild().at[lit], "filled from Server."+sf)
 				} else {
-					c.Bad("C07.4", fname(rl), "Request."+rf, w.instrPos(in), "Request."+rf+" is filled from "+w.key(v)+", not Server."+sf)
+					c.Bad("C07.4", fname(rl), "Request."+rf, w.requestBuild().at[lit], "Request."+rf+" is filled from "+w.key(v)+", not Server."+sf)
 				}
 			}
-		})
+		}
 	}
 
 	// ---- C07.5
